@@ -158,6 +158,7 @@ func (m *Merged) RefsFor(oid []byte) (*Iterator, error) {
 			return nil, err
 		}
 		mit.stack = append(mit.stack, it.impl)
+		mit.names = append(mit.names, t.Name())
 	}
 
 	if err := mit.init(); err != nil {
